@@ -5,7 +5,9 @@ from .util import call
 
 ID = 'C12'
 LEAN_MODULE = 'KernProofs.C12'
-THEOREMS = ['KM.C12.resets_errors', 'KM.C12.C12_state_independent', 'KM.C12.C12_history', 'KM.C12.C12_order_irrelevant', 'KM.C12.wraps_rejected', 'KM.C12.C12_rejected_cell', 'KM.C12.C12_accepted_cell', 'KM.C12.C12_exported_verbatim']
+EXTRA_MODULES = ['KernProofs.C12Doc']
+THEOREMS = ['KM.C12.resets_errors', 'KM.C12.C12_state_independent', 'KM.C12.C12_history', 'KM.C12.C12_order_irrelevant', 'KM.C12.wraps_rejected', 'KM.C12.C12_rejected_cell', 'KM.C12.C12_accepted_cell', 'KM.C12.C12_exported_verbatim',
+            'KM.C12D.errNodes_append', 'KM.C12D.cellStep_err', 'KM.C12D.cellsLoop_err', 'KM.C12D.rowStep_err', 'KM.C12D.runRows_err', 'KM.C12D.C12_errors_are_error_nodes', 'KM.C12D.C12_import_isolates']
 FINGERPRINTS = ['kern_spine_importer.KernSpineImporter.import_token', 'error_listener.ErrorListener', 'importer.Importer', 'tokens.ErrorToken.export',
                 'exporter.Exporter.append_row', 'importer_factory.createImporter']
 RULE = ('generated documents (quick 30 / thorough 300) x placements of 1..3 malformed cells of four kinds (unknown characters, wrong order, truncated, valid '
@@ -106,6 +108,14 @@ def explore(ctx, depth):
         ctx.seen({**inp, 'clause': 'errors'}, nt)
         if got_err != exp_err:
             ctx.fail({**inp, 'clause': 'one error per malformed cell'}, 'errors are not exactly the malformed cells with their line and text', impl=got_err, expected=exp_err)
+            continue
+        # the statement of theorem C12_errors_are_error_nodes on the real tree: the error list is the error tokens of the tree in reading order,
+        # each with the number of its line (= its stage) and its verbatim text
+        from kernpy.core.tokens import ErrorToken
+        tree_err = [[s, n.token.encoding] for s, st in enumerate(dc.doc.tree.stages) for n in st if isinstance(n.token, ErrorToken)]
+        if got_err != tree_err:
+            ctx.fail({**inp, 'clause': 'error list = error tokens of the tree'}, 'the error list is not the list of error tokens of the tree in reading order',
+                     impl=got_err, expected=tree_err)
             continue
         # every other token as without the damage
         a = impl.doc_obs(case.doc, case.errors)['stages']
